@@ -1,9 +1,12 @@
 (* C13 -- Trace sets: bases are the textbook polynomials and fit/evaluate are consistent.
    Property theorems only; each is closed by `exact` and followed by Print Assumptions.
-   Model: C13/Model.v (M = transliteration of trace.py / goddard/math.py over Q; S = closed forms + checkers). *)
+   Model: C13/Model.v (M = transliteration of trace.py / goddard/math.py over Q; S = closed forms + checkers).
+   The expressions g_... (recurrences, xnorm arithmetic, jump arguments, default grid, func_fit's tests, masks and
+   weightings) are GENERATED from /repo on every run (Generated/Trace.v): the theorems about func_fit, basis, xnorm,
+   ts_fit, ts_xy are statements about what the source says now. *)
 From Coq Require Import Reals QArith Qreals Qround ZArith List Bool.
 Import ListNotations.
-From PV Require Import Lib.WLS C13.LinAlg C13.Model C13.Proofs.
+From PV Require Import Lib.WLS C13.LinAlg Generated.Trace C13.Model C13.Proofs.
 Open Scope Q_scope.
 
 (* ---------------------------------------------------------------- bases *)
@@ -48,6 +51,15 @@ Theorem C13_chebyshev_split_shifted : forall n x, chebyshev_split (S n) x == che
 Proof. exact chebyshev_split_S. Qed.
 Print Assumptions C13_chebyshev_split_shifted.
 
+(* flegendre / fchebyshev as the source writes them (ones, row 1 = x, np.polyval of the scipy family named in the
+   source at the degree expression of the source) are the Legendre / Chebyshev polynomials *)
+Theorem C13_flegendre_is_legendre : forall k x, flegendre_row k x == legendre_rec k x.
+Proof. exact flegendre_row_is_legendre. Qed.
+Print Assumptions C13_flegendre_is_legendre.
+Theorem C13_fchebyshev_is_chebyshev : forall k x, fchebyshev_row k x == chebyshev_rec k x.
+Proof. exact fchebyshev_row_is_chebyshev. Qed.
+Print Assumptions C13_fchebyshev_is_chebyshev.
+
 (* the algorithmic model's bases equal the specification's closed forms (what the checkers use), all x, order <= 12 *)
 Theorem C13_basis_is_spec : forall f k x, (k <= 12)%nat -> basis f k x == basis_spec f k x.
 Proof. exact basis_is_spec. Qed.
@@ -73,6 +85,21 @@ Theorem C13_grad_small_exact_optimal : forall m D sol, wf m D -> grad_small 0 m 
 Proof. exact grad_small_exact_optimal. Qed.
 Print Assumptions C13_grad_small_exact_optimal.
 
+(* func_fit assembled from the expressions of the source (good-point test, ncfit, branch constants, inputans*(1-ia),
+   ysub, free/fixed masks, extra2 and beta weightings, inputfunc scaling) is the reference form: a dropped weight, a
+   lost (1 - ia), swapped masks ... change Generated/Trace.v and this proof stops checking *)
+Theorem C13_func_fit_generated_is_reference : forall f x y w ncoeff ia ans ifunc,
+  func_fit f x y w ncoeff ia ans ifunc = func_fit_ref f x y w ncoeff ia ans ifunc.
+Proof. exact func_fit_eq_ref. Qed.
+Print Assumptions C13_func_fit_generated_is_reference.
+Theorem C13_generated_masks_complementary : forall b, g_fixed b = negb (g_nonfix b).
+Proof. exact g_masks_complementary. Qed.
+Print Assumptions C13_generated_masks_complementary.
+(* the nparams = 1 shortcut of the source is the same normal equation *)
+Theorem C13_single_parameter_formula : forall ysub w f, g_beta1 ysub w f == g_beta_w ysub w * f.
+Proof. exact g_single_parameter. Qed.
+Print Assumptions C13_single_parameter_formula.
+
 (* func_fit (>= 2 good points, weights >= 0): the free coefficients minimise the weighted chi-square of
    (data - fixed part) over all vectors; res = scatter(free solution, inputans) padded with zeros; yfit = basis . res *)
 Theorem C13_func_fit_optimal : forall f x y w ncoeff ia ans ifunc res yfit,
@@ -86,7 +113,7 @@ Theorem C13_func_fit_optimal : forall f x y w ncoeff ia ans ifunc res yfit,
               yfit = map (fun r => dot r (scatter 0 iaf sol ans)) rows /\
               length sol = count_true iaf /\
               forall z, length z = count_true iaf -> chi2 D sol <= chi2 D z.
-Proof. exact func_fit_optimal. Qed.
+Proof. exact gen_func_fit_optimal. Qed.
 Print Assumptions C13_func_fit_optimal.
 
 (* the same in terms of the full coefficient vector: among ALL coefficient vectors carrying the prescribed values at
@@ -101,7 +128,7 @@ Theorem C13_func_fit_optimal_full : forall f x y w ncoeff ia ans ifunc res yfit,
   exists resf, res = resf ++ zeros (ncoeff - ncfit) /\ length resf = ncfit /\ fixed_agree iaf resf ans /\
     yfit = map (fun r => dot r resf) rows /\
     forall c, length c = ncfit -> fixed_agree iaf c ans -> chi2 D resf <= chi2 D c.
-Proof. exact func_fit_optimal_full. Qed.
+Proof. exact gen_func_fit_optimal_full. Qed.
 Print Assumptions C13_func_fit_optimal_full.
 
 (* coefficients declared fixed (ia_j = False) keep their prescribed values *)
@@ -110,15 +137,15 @@ Theorem C13_func_fit_fixed_kept : forall f x y w ncoeff ia ans ifunc res yfit j 
   (j < Nat.min (ngood_of y w) ncoeff)%nat ->
   nth_error ia j = Some false -> nth_error ans j = Some v ->
   nth_error res j = Some v.
-Proof. exact func_fit_fixed_kept. Qed.
+Proof. exact gen_func_fit_fixed_kept. Qed.
 Print Assumptions C13_func_fit_fixed_kept.
 
 (* zero-weight points have no influence: changing y where w == 0 changes nothing in the answer *)
-Theorem C13_func_fit_zero_weight_indep : forall f x y y' w ncoeff ia ans ifunc res yfit,
+Theorem C13_func_fit_zero_weight_indep : forall f x y w ncoeff ia ans ifunc res yfit y',
   agree3 w y y' -> (2 <= ngood_of y w)%nat ->
   func_fit f x y w ncoeff ia ans ifunc = Some (res, yfit) ->
   func_fit f x y' w ncoeff ia ans ifunc = Some (res, yfit).
-Proof. exact func_fit_zero_weight_indep. Qed.
+Proof. exact gen_func_fit_zero_weight_indep. Qed.
 Print Assumptions C13_func_fit_zero_weight_indep.
 
 (* data that are an exact combination c of the basis: chi2 = 0, every good point reproduced, and c itself is
@@ -138,10 +165,22 @@ Theorem C13_func_fit_exact_recovery : forall f x y w ncoeff ia ans ifunc res yfi
               ((forall z, length z = count_true iaf ->
                   Forall (fun o => 0 < snd (fst o) -> dot (fst (fst o)) z == 0) D -> forall r, dot r z == 0)
                -> veq sol c).
-Proof. exact func_fit_exact_recovery. Qed.
+Proof. exact gen_func_fit_exact_recovery. Qed.
 Print Assumptions C13_func_fit_exact_recovery.
 
 (* ---------------------------------------------------------------- trace sets *)
+(* xnorm / nx assembled from the source's expressions are the reference forms the checkers use; __init__ and xy hand
+   the same jump to xnorm *)
+Theorem C13_xnorm_is_spec : forall xmin xmax j x, xnorm xmin xmax j x = xnorm_spec xmin xmax j x.
+Proof. exact xnorm_is_spec. Qed.
+Print Assumptions C13_xnorm_is_spec.
+Theorem C13_nx_is_spec : forall t, ts_nx t = ts_nx_spec t.
+Proof. exact ts_nx_is_spec. Qed.
+Print Assumptions C13_nx_is_spec.
+Theorem C13_jump_args_consistent : forall j, xy_jump j false = fit_jump j.
+Proof. exact jump_args_consistent. Qed.
+Print Assumptions C13_jump_args_consistent.
+
 (* xy (fit xpos ypos) xpos = (xpos, yfit) for every trace, whatever the jump parameters *)
 Theorem C13_traceset_fit_eval_consistent : forall f ncoeff oxmin oxmax j xpos ypos ivar inmask t yfit,
   ts_fit f ncoeff oxmin oxmax j xpos ypos ivar inmask = Some (t, yfit) ->
@@ -162,8 +201,8 @@ Proof. exact default_grid_spec. Qed.
 Print Assumptions C13_default_grid.
 
 (* the BOSS jump fraction is a fraction *)
-Theorem C13_jump_fraction_clamped : forall q, 0 <= clamp01 q <= 1.
-Proof. exact clamp01_range. Qed.
+Theorem C13_jump_fraction_clamped : forall x lo hi, 0 <= g_jfrac x lo hi <= 1.
+Proof. exact jfrac_range. Qed.
 Print Assumptions C13_jump_fraction_clamped.
 
 (* ---------------------------------------------------------------- non-vacuity witnesses *)
